@@ -42,7 +42,11 @@ CLAIM = {
             'negative witness proved for duplicates); the parameters object is a state machine (add / replace / remove '
             '/ set_unpack_parameter, rejected calls included) and after ANY two histories that leave the same content '
             '(same dictionary, same unpacked set) every look-up agrees, i.e. a look-up equals the one on a freshly built '
-            'object: no stale derived state (lookup_no_stale_state). The model is tied to runner.py / parameters.py / results.py '
+            'object: no stale derived state (lookup_no_stale_state); every look-up commutes with any INJECTIVE renaming of '
+            'the parameter values (lookup_exact: values are compared exactly, closeness plays no role; distinct listed values '
+            'resolve to distinct positions, close_values_looked_up_separately; a setter stores every new value, '
+            'setter_takes_effect_for_every_new_value); refilling a container bound to two parameters is the replacement of both '
+            'lists in either order (refill_of_shared_container). The model is tied to runner.py / parameters.py / results.py '
             'by exact comparison of call logs, runned_reps, stored statistics, partial files and lookups on seeded '
             'and exhaustively enumerated small scenarios, and on seeded histories that interleave simulate(), look-ups '
             'and mutations of the parameter set on one runner / one SimulationParameters object (each look-up also '
@@ -102,7 +106,26 @@ CLAIM = {
             'the model these are values. R14 (300 variations with indexes 257 / 299 / 300, 272 = 17x16, rep_max 300, '
             '258 named results per repetition, 258 extra parameters, thorough: 65537 and 258x257 variations): '
             'correspondence + oracle, the theorems are unbounded. All of R8-R14 apply; none exposed a defect of the '
-            'unmodified library.',
+            'unmodified library. R15 (distinct values that are merely close: five families - magnitudes 1e-9..1e-15, '
+            '2.4e9 + 200 b, neighbouring doubles of 0.3, 1.5 + b 2^-43, values 1e-10 apart around 1e-8 - as value lists, '
+            'replacement lists of the same length, fixed values present / absent-next-to-a-present-one; values returned by '
+            'the repetitions 2^ce + o 2^de with ce - de = 20 so that every sum and sum of squares is exact, MISC values 1 ulp / '
+            '2^-40 apart): THEOREMS lookup_exact, close_values_looked_up_separately, setter_takes_effect_for_every_new_value '
+            '(the harness map base integer -> close float is an injective renaming, the model line is unchanged) + '
+            'correspondence + oracle; the partial results on disk after ONE value was replaced by a close one (fixed '
+            'parameter or one list element) lie outside the model (it keys the files by position): first-principles oracle '
+            'only (the call is refused or the changed combinations are run afresh; never a repetition of the old value in a '
+            'stored result). R16 (ONE container per parameter refilled in place between the calls - lists of any length, '
+            'int64 / int16 / float64 / strided arrays -, the same container for two parameters, ONE fixed-values dictionary '
+            'and one 0-d array per value refilled before and scribbled on after every look-up, ONE 0-d index array for '
+            'simulate(index); the answers are compared with the model (for which a refill is a replacement of contents: '
+            'refill_of_shared_container, lookup_no_stale_state, repeated_simulate_fresh), with a freshly built object / runner '
+            'holding a copy of the contents and with first principles; variations, index arrays, value lists and results '
+            'objects handed out earlier are re-compared after the later refills): theorem + correspondence + oracle; the '
+            'results API with one object in two roles (acc.merge_all_results(acc), Result.merge(r, r), one operand merged '
+            'into two collectors, SimulationParameters.create(d) with d refilled) and array-VALUED results: oracle only. '
+            'R16 exposed one defect of the unmodified library, recorded as known (C05:R16:array-value-kept-by-reference: '
+            'Result.update keeps a reference to an array value).',
 }
 
 NAME_POOL = ['a', 'b', 'c', 'aa', 'ab', 'B', 'Z', 'a1', '_x', 'snr', 'SNR', 'M', 'z9']
@@ -170,6 +193,43 @@ R2_KINDS = ['rev', 'strided', 'col', 'fcol', 'rows2', 'rows2T', 'bcast2', 'rows3
 R6_SCALES = ['1e-12', '1e-9', '1e-3', '1e3', '1e9', '1e12']
 NOT_LOOKABLE = ('rows2', 'rows2T', 'bcast2', 'rows3d')     # look-up by value needs scalar elements
 UNSIGNED = ('uint8', 'uint16', 'npscalars:uint16')
+# R15: families of DISTINCT values that a tolerance-based comparison (np.isclose / np.allclose with the default
+# atol=1e-8, rtol=1e-5, math.isclose, a rounded key, an absolute threshold) would identify
+R15_FAMS = ['tiny', 'rel', 'adj', 'dec12', 'thr']
+# R15: values returned by the repetitions: 'aff:ce:de' = 2^ce + o * 2^de for the SUM and the MISC result
+# (ce - de = 20: every sum, square and sum of squares is exact in binary64, the comparison stays exact);
+# 'm:...' = the MISC result only (the SUM result gets the plain integer): neighbouring doubles of 0.3,
+# 1 + o * 2^-40 (differences beyond the 12th decimal)
+R15_OUTS = ['aff:0:-20', 'aff:31:11', 'aff:-38:-58', 'm:adj', 'm:aff:0:-40', 'm:aff:31:-9']
+# R16: containers a caller can refill in place ('list' kinds: any length; arrays: same length)
+R16_KINDS = ['list', 'floatlist', 'int64', 'float64', 'strided', 'int16', 'close:rel:arr']
+
+
+def _bits(x):
+    import struct
+    return struct.unpack('<q', struct.pack('<d', float(x)))[0]
+
+
+def _from_bits(n):
+    import struct
+    return struct.unpack('<d', struct.pack('<q', n))[0]
+
+
+def close_value(fam, b):
+    """R15: an INJECTIVE map base integer -> float whose image is a cluster of distinct values that are
+    merely close (the model sees the base integers: it is a function of the exact value)"""
+    b = int(b)
+    if fam == 'tiny':      # magnitudes 1e-9 ... 1e-15: all "equal" to 0 and to each other for atol = 1e-8
+        return (1000 + b) * 10.0 ** -(12 + b % 7)
+    if fam == 'rel':       # 2.4e9, 2.4e9 + 200, ...: relative differences below 1e-5 (exact integers)
+        return 2.4e9 + 200.0 * b
+    if fam == 'adj':       # 0.3, 0.30000000000000004, ...: neighbouring doubles
+        return _from_bits(_bits(0.3) + b)
+    if fam == 'dec12':     # 1.5 + b * 2^-43: differences beyond the 12th decimal
+        return 1.5 + b * 2.0 ** -43
+    if fam == 'thr':       # around an absolute threshold of 1e-8, 1e-10 apart
+        return 1e-8 + (b - 5) * 1e-10
+    raise ValueError(fam)
 
 
 def _np():
@@ -220,6 +280,13 @@ def mat_container(kind, base):
     if kind.startswith('npscalars:'):
         t = np.dtype(kind.split(':')[1]).type
         return [t(b) for b in base], t
+    if kind.startswith('close:'):            # R15: distinct values that are merely close
+        parts = kind.split(':')
+        fam = parts[1]
+        if len(parts) > 2:
+            return np.array([close_value(fam, b) for b in base], dtype=np.float64), \
+                (lambda b: np.float64(close_value(fam, b)))
+        return [close_value(fam, b) for b in base], (lambda b: close_value(fam, b))
     if kind.startswith('scale:'):            # R6: the whole grid multiplied by a decimal factor
         parts = kind.split(':')
         f = float(parts[1])
@@ -304,6 +371,22 @@ class Mat:
         self.kind = {}
         self.inputs = []          # R3: (what, object handed to the library, snapshot at that time)
         self.af = case.get('argform')   # R8: seed of the argument-form choices (None: the plain form)
+        # R16: the caller keeps ONE object per role and refills it in place: one buffer per parameter
+        # (`refill`), one dictionary of fixed values, one 0-d array per fixed value / for the variation index
+        self.reuse = bool(m.get('reuse'))
+        self.share = list(m.get('share', []))      # R16: names that are handed the SAME container object
+        self.bufs = {}
+        self.fxdict = {}
+        self.fx0d = {}
+        self.idxbuf = None
+        self.nrefills = 0
+        self._sc = None
+        k = self.ok
+        self._aff = self._maff = None
+        if k.startswith('aff:'):
+            self._aff = self._maff = (Fraction(2) ** int(k.split(':')[1]), Fraction(2) ** int(k.split(':')[2]))
+        elif k.startswith('m:aff:'):
+            self._maff = (Fraction(2) ** int(k.split(':')[2]), Fraction(2) ** int(k.split(':')[3]))
 
     def pick(self, n):
         """R8: which of the n equivalent ways to make the next call (positional / keyword / default / ...)"""
@@ -315,15 +398,49 @@ class Mat:
     # parameters ---------------------------------------------------------
     def container(self, name, base, kind=None):
         kind = kind or self.pk.get(name, 'list')
-        obj, fn = mat_container(kind, base)
+        mate = [n for n in self.share if n != name and n in self.bufs] if name in self.share else []
+        if mate and self.kind.get(mate[0]) == kind and self.table.get(mate[0]) is not None \
+                and [self.table[mate[0]].get(elem_key(e)) for e in self.bufs[mate[0]]] == list(base):
+            # R16: the SAME container object in two roles (value list of two parameters)
+            obj, fn = self.bufs[mate[0]], self.elemfn[mate[0]]
+        else:
+            obj, fn = mat_container(kind, base)
         self.kind[name] = kind
         self.elemfn[name] = fn
         t = {}
         for b, e in zip(base, obj):
             t.setdefault(elem_key(e), b)
         self.table[name] = t
+        self.bufs[name] = obj
         self.inputs.append(('parameter %s (%s)' % (name, kind), obj, snap(obj)))
         return obj
+
+    def can_refill(self, name, n):
+        """R16: can the container handed over for `name` be refilled in place with n values?"""
+        np = _np()
+        obj = self.bufs.get(name)
+        if isinstance(obj, list):
+            return True
+        return isinstance(obj, np.ndarray) and obj.ndim == 1 and obj.flags.writeable and len(obj) == n
+
+    def refill(self, names, base):
+        """R16: the caller overwrites the contents of the container it handed over earlier (`buf[...] = new`,
+        `lst[:] = new`); NO library call is made. Every name bound to that object now carries the new values."""
+        obj = self.bufs[names[0]]
+        vals = [self.elemfn[names[0]](b) for b in base]
+        if isinstance(obj, list):
+            obj[:] = vals
+        else:
+            obj[...] = vals
+        self.nrefills += 1
+        for name in names:
+            assert self.bufs.get(name) is obj, 'R16 generator: %s is not bound to the refilled object' % name
+            t = {}
+            for b, e in zip(base, obj):
+                t.setdefault(elem_key(e), b)
+            self.table[name] = t
+        # the caller changed its own object: that is not a modification made by the library
+        self.inputs = [(w, o, snap(o) if o is obj else sn) for w, o, sn in self.inputs]
 
     def new_kind(self, i):
         return self.new[i % len(self.new)]
@@ -353,8 +470,37 @@ class Mat:
                 out[k] = mat_fixed(self.fk, e)
             else:
                 out[k] = v
+        if self.reuse:
+            # R16: ONE dictionary object (and one 0-d array per key) refilled before every look-up
+            np = _np()
+            d = self.fxdict
+            d.clear()
+            for k, v in out.items():
+                if self.fk == '0d' and isinstance(v, np.ndarray) and v.ndim == 0 and v.dtype.kind in 'if':
+                    buf = self.fx0d.get((k, v.dtype.str))
+                    if buf is None:
+                        buf = self.fx0d[(k, v.dtype.str)] = np.zeros((), dtype=v.dtype)
+                    buf[...] = v
+                    v = buf
+                d[k] = v
+            self.inputs = [t for t in self.inputs if t[1] is not d and not any(t[1] is b for b in self.fx0d.values())]
+            self.inputs.append(('fixed values %r (reused dictionary)' % (fx,), d, snap(d)))
+            return d
         self.inputs.append(('fixed values %r' % (fx,), out, snap(out)))
         return out
+
+    def scribble(self):
+        """R16 (iii): the caller modifies the argument right after the call"""
+        if self.reuse and self.fxdict:
+            d = self.fxdict
+            self.inputs = [t for t in self.inputs if t[1] is not d]
+            for k in list(d):
+                v = d[k]
+                if any(v is b for b in self.fx0d.values()):
+                    v[...] = -12345
+                else:
+                    d[k] = 'scribbled'
+            d['zz_scribble'] = 1
 
     # repetitions --------------------------------------------------------
     def repmax(self, k):
@@ -368,6 +514,11 @@ class Mat:
         if self.ik == 'str':
             return str(i)
         if self.ik == '0d':
+            if self.reuse:                     # R16: ONE 0-d index array refilled before every call
+                if self.idxbuf is None:
+                    self.idxbuf = np.zeros((), dtype=np.int64)
+                self.idxbuf[...] = i
+                return self.idxbuf
             return np.array(i)
         if self.ik == 'bool':
             return bool(i) if i in (0, 1) else i
@@ -397,25 +548,78 @@ class Mat:
             return float(o) * 2.0 ** int(k[3:])
         if k.startswith('dec:'):
             return o * float(k[4:])
+        if self._aff is not None:              # R15: close but distinct values, exactly representable
+            return float(self._aff[0] + o * self._aff[1])
+        if k.startswith('m:'):                 # R15: only the MISC result carries the close values
+            return o
         raise ValueError(k)
 
-    def _scale(self):
+    def out_misc(self, o):
+        """the value of the MISCTYPE result of the repetition with outcome `o`"""
         k = self.ok
-        if k == 'mixhalf':
-            return Fraction(1, 2)
-        if k.startswith('p2:'):
-            return Fraction(2) ** int(k[3:])
-        if k.startswith('dec:'):
-            return Fraction(float(k[4:]))
-        return Fraction(1)
+        if k == 'm:adj':
+            return close_value('adj', o)
+        if self._maff is not None:
+            return float(self._maff[0] + o * self._maff[1])
+        return self.out(o)
 
-    def base_num(self, x, power=1):
-        """the base (unscaled) integer behind a stored number; comparisons are RELATIVE to the scale"""
+    def base_misc(self, x):
+        """the base integer behind a stored MISC value (exact)"""
+        if self.ok == 'm:adj':
+            try:
+                return _bits(x) - _bits(0.3) if isinstance(x, float) else repr(x)
+            except Exception:
+                return repr(x)
+        if self._maff is not None:
+            return self._unaff(x, self._maff, 1, 1, None)
+        return self.base_num(x)
+
+    def _unaff(self, x, cd, power, n, s):
+        """base integer behind a sum (power 1) / a sum of squares (power 2) of n values c + o * d; exact"""
+        c, d = cd
+        try:
+            f = Fraction(int(x)) if isinstance(x, (int, _np().integer)) else Fraction(float(x))
+            if power == 1:
+                q = (f - n * c) / d
+            else:
+                q = (f - n * c * c - 2 * c * d * s) / (d * d)
+        except Exception:
+            return repr(x)
+        return int(q) if q.denominator == 1 else repr(x)
+
+    def _scale(self):
+        if self._sc is None:
+            k = self.ok
+            if k == 'mixhalf':
+                self._sc = Fraction(1, 2)
+            elif k.startswith('p2:'):
+                self._sc = Fraction(2) ** int(k[3:])
+            elif k.startswith('dec:'):
+                self._sc = Fraction(float(k[4:]))
+            else:
+                self._sc = Fraction(1)
+        return self._sc
+
+    def base_num(self, x, power=1, n=None, s=None):
+        """the base (unscaled) integer behind a stored number; comparisons are RELATIVE to the scale.
+        `n` (number of merged values) and `s` (their base sum) are needed by the affine R15 kinds only."""
+        if self._aff is not None:
+            return self._unaff(x, self._aff, power, n, s) if n is not None else repr(x)
+        sc = self._scale()
+        if sc == 1:
+            # (fast path, same answer: an integral number is shown as that integer, anything else verbatim)
+            if isinstance(x, (int, _np().integer)):
+                return int(x)
+            try:
+                fl = float(x)
+                return int(fl) if fl == int(fl) else repr(x)
+            except Exception:
+                return repr(x)
         try:
             f = Fraction(int(x)) if isinstance(x, (int, _np().integer)) else Fraction(float(x))
         except Exception:
             return repr(x)
-        q = f / self._scale() ** power
+        q = f / sc ** power
         r = round(q)
         if q == r or (self.ok.startswith('dec:') and abs(q - r) <= Fraction(1, 10 ** 9) * max(1, abs(r))):
             return int(r)
@@ -471,9 +675,10 @@ def _stat(res, j, mat=None):
     (type and scale of the values `_run_simulation` returned are undone; tolerance relative to the scale)"""
     mat = mat or Mat({})
     s, ra, mi, tk, sk = (res[n][j] for n in ('sum', 'ratio', 'misc', 'tok', 'num_skipped_reps'))
-    return '/'.join([str(mat.base_num(s._value)), str(mat.base_num(s._result_squared_sum, 2)),
+    sb = mat.base_num(s._value, 1, s.num_updates)
+    return '/'.join([str(sb), str(mat.base_num(s._result_squared_sum, 2, s.num_updates, sb)),
                      _int(s.num_updates), _int(ra._value), _int(ra._total), _int(ra.num_updates),
-                     str(mat.base_num(mi._value)), _int(tk._value)]), _int(sk._value)
+                     str(mat.base_misc(mi._value)), _int(tk._value)]), _int(sk._value)
 
 
 # ------------------------------------------------------------------ extra results: every observable of a Result
@@ -565,8 +770,9 @@ def build_extras(res, case, a, mat=None, callno=0):
 
 
 def _frac(x):
-    f = Fraction(x) if isinstance(x, (int, float)) else Fraction(float(x))
-    return '%d_%d' % (f.numerator, f.denominator)
+    if isinstance(x, int):
+        return '%d_1' % x
+    return '%d_%d' % float(x).as_integer_ratio()      # (lowest terms, positive denominator: as Fraction(x))
 
 
 def rcanon(r):
@@ -633,6 +839,14 @@ def expected_extras(case, succ):
         out.append('%s%d<%s,%d,%d,%s,%s,%s,%s>' % (ty, 1 if acc else 0, v_s, total, n, _frac(rsum), _frac(rsq),
                                                     '.'.join(str(x) for x in vl), '.'.join(str(x) for x in tl)))
     return '~' + ''.join(out)
+
+
+def expected_main(succ):
+    """first principles: squares / num_updates of the SUM result, value / total / num_updates of the RATIO
+    result and the MISC value after the successful repetitions `succ` (base values, in execution order)"""
+    n = len(succ)
+    return [str(sum(a * a for a in succ)), str(n), str(sum(abs(a) % 5 for a in succ)), str(8 * n), str(n),
+            str(succ[-1]) if succ else '0']
 
 
 def gen_xr(rng, n=None):
@@ -747,7 +961,8 @@ def make_runner(case, mat=None, content=None, repmax=None):
             o = outs[c]
             self.pos += 1
             # the values this variation carries for the parameters that are unpacked right now
-            names = list(self.params._unpacked_parameters_set)
+            names = list(self.params._unpacked_parameters_set) + [
+                n for n in case.get('logfixed', []) if n in current_parameters.parameters]
             self.calllog.append((current_parameters.unpack_index, c, o,
                                  {n: mat.canon(n, current_parameters[n]) for n in names}))
             self.events.append(('run',) + self.calllog[-1])
@@ -756,7 +971,7 @@ def make_runner(case, mat=None, content=None, repmax=None):
             r = SimulationResults()
             adders = [lambda: r.add_new_result('sum', Result.SUMTYPE, mat.out(o)),
                       lambda: r.add_new_result('ratio', Result.RATIOTYPE, abs(o) % 5, 8),
-                      lambda: r.add_new_result('misc', Result.MISCTYPE, mat.out(o)),
+                      lambda: r.add_new_result('misc', Result.MISCTYPE, mat.out_misc(o)),
                       lambda: r.add_new_result('tok', Result.SUMTYPE, 1 << c)]
             if case.get('xorder') is not None:
                 sh = (case['xorder'] + c) % 4
@@ -772,7 +987,7 @@ def make_runner(case, mat=None, content=None, repmax=None):
 
         def _keep_going(self, current_params, current_sim_results, current_rep):
             pos = max(current_params.unpack_index, 0)
-            sm = mat.base_num(current_sim_results['sum'][-1]._value)
+            sm = mat.base_num(current_sim_results['sum'][-1]._value, 1, current_sim_results['sum'][-1].num_updates)
             v = eval_rule(rule_for(case, pos), sm,
                           current_sim_results['num_skipped_reps'][-1]._value, current_rep)
             self.events.append(('keep', current_params.unpack_index, sm,
@@ -824,11 +1039,12 @@ def diff_obs(a, b, ignore=()):
     return [k for k in a if k not in ignore and a[k] != b[k]]
 
 
-def run_op(runner, op, tmp):
-    """one simulate() / simulate(index) call; returns (canonical part, observation)"""
+def run_op(runner, op, tmp, before=None):
+    """one simulate() / simulate(index) call; returns (canonical part, observation). `before`: the observation
+    made after the previous call when nothing happened in between (saves observing twice)"""
     start = len(runner.calllog)
     estart = len(runner.events)
-    before = observe(runner, tmp)
+    before = before or observe(runner, tmp)
     status = 'ok'
     try:
         call_simulate(runner, op)
@@ -844,7 +1060,7 @@ def run_op(runner, op, tmp):
         '|'.join('%s%s/%s' % (st, x, sk) for (st, sk), x in zip(stats, after['xstats'])),
         '|'.join('%d:%d:%s:%s%s' % ((i,) + store[i]) for i in sorted(store)))
     ob = {'status': status, 'calls': calls, 'events': runner.events[estart:], 'reps': runner.runned_reps,
-          'stats': stats, 'xstats': after['xstats'], 'store': dict(store)}
+          'stats': stats, 'xstats': after['xstats'], 'store': dict(store), 'after': after}
     if status not in ('ok', 'Exhausted', 'SkipThisOne'):
         # R4: a rejected call must leave every observable as it was
         ob['rejected_changed'] = diff_obs(before, after, ignore=('results_id',))
@@ -855,7 +1071,8 @@ def run_op(runner, op, tmp):
 
 def run_impl(case, scratch):
     """Run the scenario on the real code. Returns (canonical string, observations)."""
-    tmp = tempfile.mkdtemp(prefix='c05_', dir=scratch)
+    # (a scratch directory is only needed when the scenario has a results file)
+    tmp = tempfile.mkdtemp(prefix='c05_', dir=scratch) if case['file'] else None
     try:
         mat = Mat(case)
         runner = make_runner(case, mat)
@@ -864,8 +1081,10 @@ def run_impl(case, scratch):
             runner.partial_results_folder = None
         parts = []
         obs = {'ops': []}
+        last = None
         for op in case['ops']:
-            part, ob = run_op(runner, op, tmp)
+            part, ob = run_op(runner, op, tmp, last)
+            last = ob.pop('after')
             parts.append(part)
             obs['ops'].append(ob)
         looks = []
@@ -884,11 +1103,13 @@ def run_impl(case, scratch):
             ch = diff_obs(before, observe(runner, tmp, with_store=False))
             if ch:
                 obs.setdefault('lookup_changed_state', []).append((fx, ch))
+            mat.scribble()          # R16 (iii): the argument is modified right after the call
         obs['inputs_mutated'] = [w for w, o, sn in mat.inputs if snap(o) != sn]
         obs['returned_changed'] = [w for w, o, sn in returned if snap(o) != sn]
         return ' ; '.join(parts) + ' ; look=' + '/'.join(looks), obs
     finally:
-        shutil.rmtree(tmp, ignore_errors=True)
+        if tmp is not None:
+            shutil.rmtree(tmp, ignore_errors=True)
 
 
 # ------------------------------------------------------------------ merge / append paths without a runner
@@ -1000,8 +1221,18 @@ def hist_line(case):
     vals = '|'.join(','.join(str(v) for v in case['vals'][n]) for n in names)
     outs = ','.join('s' if o == 's' else str(o) for o in case['outs'])
     return 'hist names=%s vals=%s repmax=%d keep=%s outs=%s ops=%s' % (
-        ','.join(names), vals, case['repmax'], ';'.join(case['keep']), outs, ','.join(case['ops'])) \
+        ','.join(names), vals, case['repmax'], ';'.join(case['keep']), outs,
+        ','.join(m for op in case['ops'] for m in model_ops(op))) \
         + (' xr=' + xr_token(case) if case.get('xr') else '')
+
+
+def model_ops(op):
+    """the model sees CONTENT: refilling in place the container bound to the parameters a, b (R16, no library
+    call at all) is, for the model, the replacement of their value lists"""
+    if op.startswith('pfill:'):
+        t = op.split(':')
+        return ['padd:%s:%s' % (n, t[2]) for n in t[1].split('+')]
+    return [op]
 
 
 def parse_hop(op):
@@ -1021,6 +1252,8 @@ def parse_hop(op):
     t = op.split(':')
     if t[0] == 'padd':
         return ('padd', t[1], [int(x) for x in t[2].split('.') if x])
+    if t[0] == 'pfill':
+        return ('pfill', t[1].split('+'), [int(x) for x in t[2].split('.') if x])
     if t[0] == 'pscalar':
         return ('pscalar', t[1], int(t[2]))
     if t[0] == 'prem':
@@ -1041,6 +1274,9 @@ def apply_content(content, hop, repmax=None, file=True):
     d, u = content
     if hop[0] == 'padd':
         d[hop[1]] = list(hop[2])
+    elif hop[0] == 'pfill':
+        for nm in hop[1]:
+            d[nm] = list(hop[2])
     elif hop[0] == 'pscalar':
         d[hop[1]] = hop[2]
     elif hop[0] == 'prem':
@@ -1072,6 +1308,10 @@ def query_params(p, res, mfx, with_results, mat):
         names = sorted(p._unpacked_parameters_set)
         out['combos'] = [[mat.canon(n, c[n]) for n in names] for c in lst]
         out['idx'] = [c.unpack_index for c in lst]
+        if mat.reuse and names:
+            # R16: the variations handed out now are values: a later refill of the caller's container must
+            # not change what they carry
+            out['children'] = [(c, names, [elem_key(c[n]) for n in names]) for c in lst[:6]]
     except Exception as e:
         out['error'] = type(e).__name__
         return out
@@ -1174,8 +1414,9 @@ def run_hist_impl(case, scratch):
     from pyphysim.simulations.parameters import SimulationParameters
     from pyphysim.simulations.results import SimulationResults
     np = _np()
-    tmp = tempfile.mkdtemp(prefix='c05h_', dir=scratch)
-    tmp2 = tempfile.mkdtemp(prefix='c05t_', dir=scratch)
+    # (scratch directories only when the history switches a results file on; the fresh twin never has one)
+    tmp = tempfile.mkdtemp(prefix='c05h_', dir=scratch) if 'file:1' in case['ops'] else None
+    tmp2 = None
     try:
         mat = Mat(case)
         runner = make_runner(case, mat)
@@ -1189,7 +1430,9 @@ def run_hist_impl(case, scratch):
         res_content = None
         returned = []      # (what, object returned earlier, snapshot then)
         held = []          # (results object, materialised fixed, answer then)
+        kept_children = []  # R16: (variation handed out earlier, names, exact values then)
         nnew = 0
+        last = None        # observation (without the partial files) made after the previous op, while still valid
         for op in case['ops']:
             hop = parse_hop(op)
             ob = {'kind': hop[0]}
@@ -1200,11 +1443,14 @@ def run_hist_impl(case, scratch):
                     # R7: a freshly built runner with the current configuration, same remaining outcomes
                     tmat = Mat(case)
                     tmat.kind = dict(mat.kind)
+                    tmat.share, tmat.reuse = [], False       # (new containers holding a copy of the contents)
                     tw = make_runner(case, tmat, content=copy_content(content), repmax=repmax)
                     tw.pos = runner.pos
                     tpart, tob = run_op(tw, 'all', tmp2)
                     twin = (tpart, tob['calls'])
-                part, ob2 = run_op(runner, op if hop[0] == 'all' else 'single:%d' % hop[1], tmp)
+                part, ob2 = run_op(runner, op if hop[0] == 'all' else 'single:%d' % hop[1], tmp,
+                                   last if tmp is None else None)      # (no partial files in this history)
+                last = dict(ob2.pop('after'), store={})
                 ob.update(ob2)
                 ob['twin'] = twin
                 ob['part'] = part
@@ -1215,11 +1461,13 @@ def run_hist_impl(case, scratch):
                     apply_content(content, hop, repmax, file_on)
                     res_content = (copy_content(content), dict(mat.kind))
             elif hop[0] == 'nq':
+                last = None
                 bad, ncalls = nonmutating_calls(runner, tmp)
                 ob['nonmutating_changed'] = bad
                 ob['ncalls'] = ncalls
                 part = 'nq=ok'
             elif hop[0] in ('rmax', 'file', 'del'):
+                last = None
                 if hop[0] == 'rmax':
                     repmax = hop[1]
                     runner.rep_max = mat.repmax(repmax)
@@ -1230,7 +1478,7 @@ def run_hist_impl(case, scratch):
                     runner.delete_partial_results_bool = hop[1]
                 part = 'a=ok'
             elif hop[0] in ('q', 'hq'):
-                before = observe(runner, tmp, with_store=False)
+                before = last or observe(runner, tmp, with_store=False)
                 mfx = mat.fixed(hop[1])
                 if hop[0] == 'hq':
                     if not simulated:
@@ -1241,12 +1489,15 @@ def run_hist_impl(case, scratch):
                             ans = ('ok', [int(x) for x in v])
                         except BaseException as e:
                             ans = ('error', type(e).__name__)
-                        held.append((runner.results, mfx, ans))
+                        held.append((runner.results, {k2: (v2.copy() if isinstance(v2, np.ndarray) else v2)
+                                                      for k2, v2 in mfx.items()}, ans))
                         part = 'h=' + _show_pack(ans)
                 else:
                     q = query_params(runner.params, runner.results, mfx, simulated, mat)
+                    kept_children.extend(q.pop('children', []))
                     fmat = Mat(case)
                     fmat.kind = dict(mat.kind)
+                    fmat.share, fmat.reuse = [], False
                     fresh = SimulationParameters()
                     fresh.add(FIXED_EXTRA, FIXED_EXTRA_VALUE)
                     for k in sorted(content[0]):
@@ -1264,6 +1515,7 @@ def run_hist_impl(case, scratch):
                         # ... i.e. the content at the time of the last simulate()
                         rmat = Mat(case)
                         rmat.kind = dict(res_content[1])
+                        rmat.share, rmat.reuse = [], False
                         fresh2 = SimulationParameters()
                         fresh2.add(FIXED_EXTRA, FIXED_EXTRA_VALUE)
                         for k in sorted(res_content[0][0]):
@@ -1293,11 +1545,22 @@ def run_hist_impl(case, scratch):
                             _show_pack(q['pack']), _show_pack(q['rv']) if simulated else '-')
                     ob.update({'q': q, 'fresh': qf, 'fixed': hop[1], 'content': copy_content(content),
                                'results_params_shared': rp is runner.params})
-                ch = diff_obs(before, observe(runner, tmp, with_store=False))
+                last = observe(runner, tmp, with_store=False)
+                ch = diff_obs(before, last)
                 if ch:
                     ob['lookup_changed_state'] = ch
+                mat.scribble()          # R16 (iii): the argument is modified right after the call
+            elif hop[0] == 'pfill':
+                # R16: the caller refills, in place, the container it handed over earlier; no library call
+                last = None
+                mat.refill(hop[1], hop[2])
+                apply_content(content, hop)
+                part = ' ; '.join('p=ok' for _ in hop[1])
+                ob['status'] = 'ok'
+                ob['refilled'] = list(hop[1])
             else:
-                before = observe(runner, tmp, with_store=False)
+                before = last or observe(runner, tmp, with_store=False)
+                last = None
                 status = 'ok'
                 p = runner.params
                 try:
@@ -1321,7 +1584,8 @@ def run_hist_impl(case, scratch):
                 part = 'p=' + status
                 ob['status'] = status
                 if status != 'ok':
-                    ob['rejected_changed'] = diff_obs(before, observe(runner, tmp, with_store=False))
+                    last = observe(runner, tmp, with_store=False)
+                    ob['rejected_changed'] = diff_obs(before, last)
             ob['inputs_mutated'] = [w for w, o, sn in mat.inputs if snap(o) != sn]
             parts.append(part)
             obs['ops'].append(ob)
@@ -1338,10 +1602,14 @@ def run_hist_impl(case, scratch):
             obs['held'].append((ans, now))
             helds.append(_show_pack(now))
         parts.append('held=' + '|'.join(helds))
+        obs['children_changed'] = [
+            (c.unpack_index, names) for c, names, keys in kept_children
+            if [elem_key(c[n]) if n in c.parameters else None for n in names] != keys][:3]
+        obs['nrefills'] = mat.nrefills
         return ' ; '.join(parts), obs
     finally:
-        shutil.rmtree(tmp, ignore_errors=True)
-        shutil.rmtree(tmp2, ignore_errors=True)
+        if tmp is not None:
+            shutil.rmtree(tmp, ignore_errors=True)
 
 
 def _pseudo(case, content):
@@ -1352,6 +1620,7 @@ def _pseudo(case, content):
 
 
 HIST_CALLS = {'padd': 'SimulationParameters.add', 'pscalar': 'SimulationParameters.add',
+              'pfill': 'SimulationParameters.add',
               'prem': 'SimulationParameters.remove', 'punp': 'SimulationParameters.set_unpack_parameter',
               'all': 'SimulationRunner.simulate', 'single': 'SimulationRunner.simulate',
               'q': 'SimulationParameters.get_pack_indexes', 'hq': 'SimulationResults.get_result_values_list'}
@@ -1419,7 +1688,7 @@ def oracle_hist(case, obs):
             emit('SimulationRunner.simulate', 'R11:non-mutating-call-changed-state',
                  'after %r: %s changed %r' % (recent, ob['nonmutating_changed'][0][0], ob['nonmutating_changed'][0][1]))
             return out
-        if k in ('padd', 'pscalar', 'prem', 'punp'):
+        if k in ('padd', 'pscalar', 'prem', 'punp', 'pfill'):
             mutated = True
             continue
         if k in ('all', 'single'):
@@ -1490,6 +1759,9 @@ def oracle_hist(case, obs):
             return out
     if obs.get('returned_changed'):
         emit('SimulationParameters.get_pack_indexes', 'R3:returned-object-changed', '%r' % obs['returned_changed'][:3])
+    if obs.get('children_changed'):
+        emit('SimulationParameters.get_unpacked_params_list', 'R16:earlier-variation-changed-by-later-refill',
+             'variations handed out earlier no longer carry the values they had: %r' % (obs['children_changed'],))
     for then, now in obs.get('held', []):
         if then != now:
             emit('SimulationResults.get_result_values_list', 'R3:held-results-object-changed',
@@ -1780,6 +2052,45 @@ def gen_rcase(rng, rclass):
         if c['kind'] != 'grid':
             c['xr'] = ['M1:1:ctor', 'M1:2:ctor', 'M0:1:ctor', 'S1:1:ctor', 'S1:2:ctor', 'R1:1:ctor', 'R1:2:ctor',
                        'C1:1:ctor', 'C1:2:ctor'][:rng.randint(3, 9)]
+    elif rclass == 'R15':
+        # distinct values that are merely close: the grid, the replacement lists, the fixed values of the
+        # look-ups (present values, and absent ones next to a present one) and the values the repetitions return
+        fam = rng.choice(R15_FAMS)
+        kind = 'close:%s%s' % (fam, ':arr' if rng.chance(0.5) else '')
+        mat['params'] = {nm: kind for nm in c['names']}
+        mat['new'] = [kind]
+        mat['fixed'] = rng.choice(['same', 'same', 'pyfloat', 'np.float64', '0d'])
+        mat['outs'] = rng.choice(R15_OUTS)
+        r15_rewrite(rng, c)
+    elif rclass == 'R16':
+        # argument identity and buffer reuse: ONE container per parameter refilled in place between the calls
+        # (sometimes the same container for two parameters), ONE dictionary of fixed values (and one 0-d array per
+        # value) refilled before every look-up and scribbled on right after it, ONE 0-d index array
+        mat['reuse'] = True
+        mat['params'] = {nm: rng.choice(R16_KINDS) for nm in c['names']}
+        mat['new'] = [rng.choice(R16_KINDS) for _ in range(3)]
+        mat['fixed'] = rng.choice(['same', '0d', '0d', 'pyfloat'])
+        mat['index'] = rng.choice(['0d', '0d', 'int'])
+        if len(c['names']) >= 2 and rng.chance(0.35):
+            a, b = c['names'][0], c['names'][1]       # the SAME container object for two parameters
+            c['vals'][b] = list(c['vals'][a])
+            mat['params'][b] = mat['params'][a]
+            mat['share'] = [a, b]
+        if c['kind'] == 'sim':
+            nvar = 1
+            for nm in c['names']:
+                nvar *= len(c['vals'][nm])
+            if rng.chance(0.6):           # several simulate(index) calls with the one index buffer
+                c['file'] = True
+                c['ops'] = ['single:%d' % rng.randint(0, max(nvar - 1, 0)) for _ in range(rng.randint(2, 4))] \
+                    + [rng.choice(['all', 'single:0'])]
+            c['look'] = gen_looks(rng, c['names'], c['vals'], rng.randint(3, 4))
+            need = min(400, (c['repmax'] + 3) * max(nvar, 1) * len(c['ops']) * 2 + 6)
+            c['outs'] = c['outs'] + [rng.randint(-3, 6) for _ in range(need - len(c['outs']))]
+        if c['kind'] == 'hist':
+            r16_rewrite_hist(rng, c, mat)
+        elif c['kind'] == 'grid':
+            c['look'] = gen_looks(rng, c['names'], c['vals'], rng.randint(2, 4))
     if c['kind'] == 'grid':
         mat.pop('outs', None)
         mat.pop('repmax', None)
@@ -1810,6 +2121,123 @@ def gen_rcase(rng, rclass):
             c['look'] = [[(k2, v2) for k2, v2 in fx if k2 not in bad] or [(FIXED_EXTRA, FIXED_EXTRA_VALUE)]
                          for fx in c['look']]
     return c
+
+
+def _neighbour(rng, v, taken):
+    """a base value next to v (its image is the closest other member of the cluster) that is not in `taken`"""
+    for dv in rng.choice([[1, -1, 2], [-1, 1, 2], [2, 1, -1]]):
+        if v + dv >= 0 and v + dv not in taken:
+            return v + dv
+    return None
+
+
+def r15_rewrite(rng, c):
+    """R15: replacement lists of the SAME length whose elements are neighbours of the old ones (a setter that
+    skips 'unchanged' values by a tolerance would ignore them); look-ups by the neighbour of a listed value
+    (present or absent: an absent one must be refused, not resolved to its neighbour)"""
+    def near_fixed(pairs, d):
+        out = []
+        for k2, v2 in pairs:
+            if isinstance(d.get(k2), list) and v2 in d[k2] and rng.chance(0.5):
+                w = _neighbour(rng, v2, [])
+                v2 = v2 if w is None else w
+            out.append((k2, v2))
+        return out
+
+    if c['kind'] != 'hist':
+        c['look'] = [near_fixed(fx, c['vals']) for fx in c['look']] \
+            + [near_fixed(fx, c['vals']) for fx in gen_looks(rng, c['names'], c['vals'], 2)]
+        return
+    ops = []
+    for op in c['ops']:
+        t = op.split(':')
+        if t[0] == 'padd' and rng.chance(0.75):
+            d, u = content_after(c['names'], c['vals'], ops, c['repmax'])
+            old = d.get(t[1])
+            if isinstance(old, list) and old:
+                new = list(old)
+                for j in range(len(new)):
+                    if rng.chance(0.6):
+                        w = _neighbour(rng, new[j], new)
+                        if w is not None:
+                            new[j] = w
+                if new != old:
+                    op = 'padd:%s:%s' % (t[1], '.'.join(str(x) for x in new))
+                    c['r15setter'] = True
+        elif t[0] in ('q', 'hq'):
+            d, u = content_after(c['names'], c['vals'], ops, c['repmax'])
+            pairs = [(x.split(':')[0], int(x.split(':')[1])) for x in op.split(':', 1)[1].split('+') if x]
+            # (values of the lists as they are NOW: the generator of the history chose them before the rewrite)
+            pairs = [(k2, rng.choice(d[k2]) if isinstance(d.get(k2), list) and d[k2] and k2 in u and v2 not in d[k2]
+                      and rng.chance(0.8) else v2) for k2, v2 in pairs]
+            op = t[0] + ':' + '+'.join('%s:%d' % kv for kv in near_fixed(pairs, d))
+        ops.append(op)
+    c['ops'] = ops
+
+
+def r16_rewrite_hist(rng, c, mat):
+    """R16: wherever the history replaces the value list of a parameter the caller refills, in place, the
+    container it handed over (`pfill`; arrays: same length) instead of handing over a new one; further refills
+    right before simulate() calls and look-ups. Tracks which names are bound to which container object."""
+    token, nxt = {}, [0]
+
+    def fresh():
+        nxt[0] += 1
+        return nxt[0]
+    for nm in c['names']:
+        token[nm] = fresh()
+    if mat.get('share'):
+        token[mat['share'][1]] = token[mat['share'][0]]
+    kindof = dict(mat['params'])
+    nnew = 0
+    ops = []
+
+    def group(nm, d):
+        return [n for n in sorted(token) if token[n] == token[nm] and isinstance(d.get(n), list)]
+
+    def fit(vals, nm, d):
+        """the new values, cut / padded to the length an array container can take"""
+        if kindof[nm] in ('list', 'floatlist'):
+            return vals
+        n = len(d[nm])
+        vals = vals[:n]
+        spare = [v for v in list(range(0, 15)) + [41, 42, 43, 44] if v not in vals]
+        rng.shuffle(spare)
+        return vals + spare[:n - len(vals)]
+
+    for op in c['ops']:
+        t = op.split(':')
+        d, u = content_after(c['names'], c['vals'], ops, c['repmax'])
+        if t[0] in ('all', 'q', 'hq') and rng.chance(0.4):
+            bound = [n for n in sorted(u) if n in token and isinstance(d.get(n), list) and d[n]]
+            if bound:
+                nm = rng.choice(bound)
+                vals = list(d[nm])
+                rng.shuffle(vals)
+                if rng.chance(0.5):
+                    vals[rng.below(len(vals))] = rng.choice([v for v in range(15, 30) if v not in vals])
+                ops.append('pfill:%s:%s' % ('+'.join(group(nm, d)), '.'.join(str(x) for x in vals)))
+                d, u = content_after(c['names'], c['vals'], ops, c['repmax'])
+        if t[0] == 'padd':
+            nm = t[1]
+            vals = [int(x) for x in t[2].split('.') if x]
+            if nm in token and isinstance(d.get(nm), list):
+                vals = fit(vals, nm, d)
+                if (vals or kindof[nm] in ('list', 'floatlist')) and rng.chance(0.9):
+                    ops.append('pfill:%s:%s' % ('+'.join(group(nm, d)), '.'.join(str(x) for x in vals)))
+                    continue
+            token[nm] = fresh()
+            kindof[nm] = mat['new'][nnew % len(mat['new'])]
+            nnew += 1
+        elif t[0] in ('prem', 'pscalar'):
+            token.pop(t[1], None)
+        elif t[0] in ('q', 'hq'):
+            pairs = [(x.split(':')[0], int(x.split(':')[1])) for x in op.split(':', 1)[1].split('+') if x]
+            pairs = [(k2, rng.choice(d[k2]) if isinstance(d.get(k2), list) and d[k2] and k2 in u and v2 not in d[k2]
+                      and rng.chance(0.85) else v2) for k2, v2 in pairs]
+            op = t[0] + ':' + '+'.join('%s:%d' % kv for kv in pairs)
+        ops.append(op)
+    c['ops'] = ops
 
 
 def derived_objects_check(case, mat, p, lst, names):
@@ -1894,6 +2322,7 @@ def run_grid_impl(case):
         except BaseException as e:
             packs.append('error:' + type(e).__name__)
             obs['pack'].append(('error', type(e).__name__))
+        mat.scribble()              # R16 (iii): the argument is modified right after the call
     # R3/R4: look-ups (accepted or rejected) change nothing; inputs and earlier outputs stay as they were
     obs['state_changed'] = before != (snap(dict(p.parameters)), sorted(p._unpacked_parameters_set))
     obs['inputs_mutated'] = [w for w, o, sn in mat.inputs if snap(o) != sn]
@@ -2116,6 +2545,13 @@ def oracle_sim(case, obs, cfgs=None):
                                     'variation %d: stored sum=%s tok=%s, merged sum=%d tok=%d'
                                     % (pos, f[0], f[7], s, tok))
                         break
+                    exp = expected_main(done_hist[pos])
+                    if f[1:7] != exp:
+                        emit(call, 'stored-result-not-merge',
+                             'variation %d after the successful repetitions %r: stored squares / updates / ratio '
+                             'value / total / updates / misc = %s, fold of the repetitions %s'
+                             % (pos, done_hist[pos], '/'.join(f[1:7]), '/'.join(exp)))
+                        break
                 # every observable of every stored Result = fold of the successful repetitions
                 for j, (pos, s, tok, rep) in enumerate(done):
                     exp = expected_extras(case, done_hist[pos])
@@ -2136,6 +2572,10 @@ def oracle_sim(case, obs, cfgs=None):
                 if sv is None or sv[0] != rep or sv[2].split('/')[0] != str(s) or sv[2].split('/')[7] != str(tok):
                     emit(call, 'stored-result-not-merge', 'variation %d: partial file %r, merged '
                                 'sum=%d tok=%d rep=%d' % (pos, sv, s, tok, rep))
+                elif sv[2].split('/')[1:7] != expected_main(done_hist[pos]):
+                    emit(call, 'stored-result-not-merge',
+                         'variation %d after the successful repetitions %r: partial file holds %s, fold of the '
+                         'repetitions %s' % (pos, done_hist[pos], sv[2], '/'.join(expected_main(done_hist[pos]))))
                 elif len(sv) > 3 and sv[3] != expected_extras(case, done_hist[pos]):
                     emit(call, 'stored-result-observables-not-fold',
                          'variation %d after the successful repetitions %r: partial file holds %s, fold of the '
@@ -2216,6 +2656,276 @@ def _oracle_grid(case, obs):
     return out
 
 
+# ------------------------------------------------------------------ R15 / R16 scenarios outside the model
+def run_r15file(case, scratch):
+    """R15: a simulation with a results file is run to the end; then ONE value is replaced by a close but
+    different one (the fixed parameter 'noise', or one element of an unpacked list) and simulate() /
+    simulate(index) is called again on the same runner. The partial results on disk were computed for the old
+    value. First principles (the property): the result stored for a combination is the merge of the repetitions
+    run FOR THAT COMBINATION. The library may refuse the call (ValueError: the partial results do not match the
+    parameters) or run the changed combinations afresh; it may not hand back repetitions of the old value."""
+    tmp = tempfile.mkdtemp(prefix='c05f_', dir=scratch)
+    try:
+        fam = case['fam']
+        mat = Mat(case)
+        runner = make_runner(case, mat)
+        runner.set_results_filename(os.path.join(tmp, 'res'))
+        runner.partial_results_folder = None
+        ch = case['change']
+        b_noise = ch[1] if ch[0] == 'scalar' else 4
+        mat.table['noise'] = {elem_key(close_value(fam, b)): b for b in range(0, 12)}
+        runner.params.add('noise', close_value(fam, b_noise))
+        out = []
+        part1, ob1 = run_op(runner, 'all', tmp)
+        if ob1['status'] != 'ok':
+            return 'first=' + ob1['status'], {'first': ob1['status']}, [
+                ('SimulationRunner.simulate', 'R15:exception:' + ob1['status'], 'the first simulate() raised')]
+        vals = {n: list(case['vals'][n]) for n in case['names']}
+        if ch[0] == 'scalar':
+            b_noise = ch[2]
+            runner.params.add('noise', close_value(fam, b_noise))
+        else:
+            vals[ch[1]][ch[2]] = ch[3]
+            call_add(runner.params, ch[1], mat.container(ch[1], vals[ch[1]], mat.kind[ch[1]]), mat)
+        ncalls1 = len(runner.calllog)
+        status = 'ok'
+        try:
+            call_simulate(runner, case['second'])
+        except ScriptExhausted:
+            status = 'Exhausted'
+        except Exception as e:
+            status = type(e).__name__
+        names, dims, n, combo = grid_facts(dict(case, vals=vals))
+        bad = None
+        checked = 0
+        if status == 'ok':
+            after = observe(runner, tmp)
+            if case['second'] == 'all':
+                stored = [(j, st.split('/')) for j, (st, sk) in enumerate(after['stats'])]
+                if len(stored) != n:
+                    bad = '%d stored results for %d variations' % (len(stored), n)
+            else:
+                i = int(case['second'].split(':')[1])
+                stored = [(i, after['store'][i][2].split('/'))] if i in after['store'] else []
+                if 0 <= i < n and not stored:
+                    bad = 'no partial results file for variation %d' % i
+            for j, f in stored:
+                want = dict(combo(j), noise=b_noise)
+                calls = [c for c in range(len(runner.calllog)) if (int(f[7]) >> c) & 1]
+                for c in calls:
+                    checked += 1
+                    if runner.calllog[c][3] != want and bad is None:
+                        bad = ('variation %d carries %r, but its stored result contains repetition #%d, which was '
+                               'run%s for %r' % (j, want, c, ' by the FIRST simulate()' if c < ncalls1 else '',
+                                                 runner.calllog[c][3]))
+                if f[0] != str(sum(runner.calllog[c][2] for c in calls)) and bad is None:
+                    bad = 'variation %d: stored sum %s is not the sum of its repetitions %r' % (j, f[0], calls)
+        viols = []
+        call = 'SimulationRunner.simulate'
+        if status not in ('ok', 'ValueError'):
+            viols.append((call, 'R15:exception:' + status, 'second simulate(%s) raised' % case['second']))
+        if bad:
+            viols.append((call, 'R15:partial-results-of-a-close-but-different-value-reused',
+                          '%s changed %s (family %s), second simulate(%s) returned normally: %s'
+                          % ('noise' if ch[0] == 'scalar' else ch[1],
+                             '%r -> %r' % ((close_value(fam, ch[1]), close_value(fam, ch[2])) if ch[0] == 'scalar'
+                                           else (close_value(fam, case['vals'][ch[1]][ch[2]]), close_value(fam, ch[3]))),
+                             fam, case['second'], bad)))
+        return 'second=%s' % status, {'status': status, 'checked': checked, 'ncalls2': len(runner.calllog) - ncalls1}, viols
+    finally:
+        shutil.rmtree(tmp, ignore_errors=True)
+
+
+def r15file_cases(rng=None, count=0):
+    """one scenario per family x kind of change x second call; `rng`: further random ones"""
+    out = []
+    base = dict(kind='r15file', rclass='R15', repmax=2, keep=['always'], outs=[1, 2, 's', 3, 1, 2] * 12, file=True,
+                look=[], logfixed=['noise'])
+    for fam in R15_FAMS:
+        kind = 'close:' + fam
+        for arr in ('', ':arr'):
+            g = dict(base, fam=fam, names=['a'], vals={'a': [3, 4]}, mat={'params': {'a': kind + arr}, 'outs': 'int'})
+            if not arr:
+                out.append(dict(g, change=['scalar', 4, 5], second='all'))
+                out.append(dict(g, change=['elem', 'a', 1, 5], second='single:1'))
+                # (the variation that was NOT changed is resumed from its partial results, as it must)
+                out.append(dict(g, change=['elem', 'a', 1, 5], second='single:0'))
+            else:
+                out.append(dict(g, change=['scalar', 4, 3], second='single:0'))
+                out.append(dict(g, change=['elem', 'a', 0, 2], second='all'))
+    for _ in range(count):
+        fam = rng.choice(R15_FAMS)
+        names, vals = gen_grid(rng, max_params=2, max_len=3, dup_p=0.0, empty_p=0.0)
+        if not names:
+            names, vals = ['a'], {'a': [1, 2]}
+        for nm in names:
+            vals[nm] = [v + 3 for v in vals[nm]]
+        nvar = 1
+        for nm in names:
+            nvar *= len(vals[nm])
+        if rng.chance(0.5):
+            b0 = rng.randint(1, 9)
+            change = ['scalar', b0, b0 + rng.choice([1, -1])]
+        else:
+            nm = rng.choice(names)
+            j = rng.below(len(vals[nm]))
+            w = _neighbour(rng, vals[nm][j], vals[nm])
+            change = ['elem', nm, j, w if w is not None else 50]
+        out.append(dict(base, fam=fam, names=names, vals=vals, repmax=rng.randint(1, 3),
+                        outs=['s' if rng.chance(0.15) else rng.randint(-3, 6) for _ in range(4 * nvar * 4 + 10)],
+                        mat={'params': {nm: 'close:%s%s' % (fam, rng.choice(['', ':arr'])) for nm in names},
+                             'outs': rng.choice(['int'] + R15_OUTS)},
+                        change=change, second=rng.choice(['all', 'all', 'single:%d' % rng.below(nvar)])))
+    return out
+
+
+def run_r16res(case):
+    """R16 on the results / parameters API without a runner: the same object in two roles, one object reused
+    for several calls; every answer must equal the one of the same call made with fresh copies of the contents
+      (a) acc.merge_all_results(acc) and Result.merge(r, r)  ==  merge of a deep copy;
+      (b) ONE results object of a repetition merged into two collectors (an empty one and a filled one), one of
+          which goes on merging: the other collector and the operand keep their values;
+      (c) SimulationParameters.create(d) with ONE dictionary d (and the lists inside) refilled between the calls:
+          an object created earlier keeps its values, the next one has the new ones."""
+    import copy
+    from pyphysim.simulations.parameters import SimulationParameters
+    from pyphysim.simulations.results import SimulationResults
+    viols = []
+    mat = Mat(case)
+    g = case['groups'][0] or [1]
+
+    def folded(vals, c0=0):
+        acc = SimulationResults()
+        for j, a in enumerate(vals):
+            acc.merge_all_results(_rep_results(case, a, c0 + j, mat))
+        return acc
+    # (a)
+    x, y = folded(g), folded(g)
+    try:
+        x.merge_all_results(x)
+        y.merge_all_results(copy.deepcopy(y))
+        if _canon_results(x, 0, case) != _canon_results(y, 0, case):
+            viols.append(('SimulationResults.merge_all_results', 'R16:same-object-in-two-roles',
+                          'repetitions %r folded, then acc.merge_all_results(acc): %s; with a deep copy as the '
+                          'operand: %s' % (g, _canon_results(x, 0, case), _canon_results(y, 0, case))))
+        x, y = folded(g), folded(g)
+        for name in x.get_result_names():
+            x[name][-1].merge(x[name][-1])
+            y[name][-1].merge(copy.deepcopy(y[name][-1]))
+        if _canon_results(x, 0, case) != _canon_results(y, 0, case):
+            viols.append(('SimulationResults.merge_all_results', 'R16:same-object-in-two-roles',
+                          'Result.merge(r, r) differs from Result.merge(r, copy of r): %s / %s'
+                          % (_canon_results(x, 0, case), _canon_results(y, 0, case))))
+    except Exception as e:
+        viols.append(('SimulationResults.merge_all_results', 'R16:same-object-in-two-roles',
+                      'merging an object with itself raises %s' % type(e).__name__))
+    # (b)
+    rep = _rep_results(case, g[0], 0, mat)
+    rep_then = _canon_results(rep, 0, case)
+    empty, filled = SimulationResults(), folded(g[1:] or [2], 1)
+    empty.merge_all_results(rep)
+    filled.merge_all_results(rep)
+    e_then = _canon_results(empty, 0, case)
+    f_then = _canon_results(filled, 0, case)
+    filled.merge_all_results(_rep_results(case, 5, 9, mat))
+    empty2 = SimulationResults()
+    empty2.merge_all_results(rep)
+    if _canon_results(empty, 0, case) != e_then or _canon_results(rep, 0, case) != rep_then \
+            or _canon_results(empty2, 0, case) != e_then:
+        viols.append(('SimulationResults.merge_all_results', 'R16:one-operand-merged-into-two-collectors',
+                      'operand %s (then %s), first collector %s (then %s), a collector filled later %s'
+                      % (_canon_results(rep, 0, case), rep_then, _canon_results(empty, 0, case), e_then,
+                         _canon_results(empty2, 0, case))))
+    del f_then
+    # (d) the SAME operand object merged twice into one collector == two copies of it merged;
+    # (e) ONE operand object whose Result objects are updated in place between two merges == a copy of the
+    #     contents at the time of each merge
+    try:
+        x, y = folded(g), folded(g)
+        rep = _rep_results(case, g[-1], 3, mat)
+        x.merge_all_results(rep)
+        x.merge_all_results(rep)
+        y.merge_all_results(copy.deepcopy(rep))
+        y.merge_all_results(copy.deepcopy(rep))
+        if _canon_results(x, 0, case) != _canon_results(y, 0, case):
+            viols.append(('SimulationResults.merge_all_results', 'R16:same-operand-object-merged-twice',
+                          'collector of %r, then the same results object merged twice: %s; two copies merged: %s'
+                          % (g, _canon_results(x, 0, case), _canon_results(y, 0, case))))
+        x, y = folded(g), folded(g)
+        rep = _rep_results(case, 2, 4, mat)
+        x.merge_all_results(rep)
+        y.merge_all_results(copy.deepcopy(rep))
+        rep['sum'][-1].update(3)
+        rep['misc'][-1].update(4)
+        rep['ratio'][-1].update(1, 8)
+        x.merge_all_results(rep)
+        y.merge_all_results(copy.deepcopy(rep))
+        if _canon_results(x, 0, case) != _canon_results(y, 0, case):
+            viols.append(('SimulationResults.merge_all_results', 'R16:operand-object-updated-between-merges',
+                          'one results object merged, updated in place, merged again: %s; copies of its contents '
+                          'merged: %s' % (_canon_results(x, 0, case), _canon_results(y, 0, case))))
+    except Exception as e:
+        viols.append(('SimulationResults.merge_all_results', 'R16:same-operand-object-merged-twice',
+                      'raises %s' % type(e).__name__))
+    # (c)
+    lst = [1, 2, 3]
+    d = {'a': lst, 'k': 7}
+    p1 = SimulationParameters.create(d)
+    p1.set_unpack_parameter('a')
+    lst[:] = [4, 5]
+    d['k'] = 8
+    p2 = SimulationParameters.create(d)
+    p2.set_unpack_parameter('a')
+    got = ([c['a'] for c in p1.get_unpacked_params_list()], p1['k'], [c['a'] for c in p2.get_unpacked_params_list()],
+           p2['k'], [int(x) for x in p2.get_pack_indexes({'a': 5})])
+    if got != ([1, 2, 3], 7, [4, 5], 8, [1]):
+        viols.append(('SimulationParameters.get_unpacked_params_list', 'R16:argument-refilled-after-create',
+                      'create(d); d refilled in place; create(d): %r' % (got,)))
+    return 'ok', {'checked': 5}, viols
+
+
+def run_r16arr(case):
+    """R16: a result whose VALUE is an array that the caller refills in place for the next repetition
+    (`Result.update(buf)`, `Result.create(name, MISCTYPE, buf)`): what is stored must be the contents at the
+    time of the call - the MISC value the last contents handed over, the accumulated list the contents of every
+    update - and a later refill must not change what is stored."""
+    np = _np()
+    from pyphysim.simulations.results import Result
+    viols = []
+    ty = {'M': Result.MISCTYPE, 'S': Result.SUMTYPE}[case['ty']]
+    fills = [list(f) for f in case['fills']]
+    buf = np.zeros(len(fills[0]), dtype=np.float64)
+    r = Result('arr', ty, accumulate_values=True)
+    for f in fills:
+        buf[...] = f
+        r.update(buf)
+    buf[...] = [-7.0] * len(buf)             # the caller goes on using its buffer
+    want_list = fills
+    want_val = fills[-1] if case['ty'] == 'M' else [sum(f[j] for f in fills) for j in range(len(buf))]
+    got_list = [np.asarray(v).tolist() for v in r._value_list]
+    got_val = np.asarray(r._value).tolist()
+    if got_list != want_list or got_val != want_val:
+        viols.append(('Result.update', 'R16:array-value-kept-by-reference',
+                      '%s result updated with ONE array refilled in place with %r, then the array is overwritten '
+                      'with -7: stored value %r (contents handed over: %r), accumulated values %r (handed over: %r)'
+                      % ('MISCTYPE' if case['ty'] == 'M' else 'SUMTYPE', fills, got_val, want_val, got_list,
+                         want_list)))
+    return 'ok', {'checked': 1}, viols
+
+
+def r16res_cases(rng=None, count=0):
+    out = [dict(kind='r16res', rclass='R16', xr=['S1:2:ctor', 'R1:1:create', 'M1:2:ctor', 'C1:1:ctor', 'M0:1:addnew'],
+                groups=[[1, 2, 3]]),
+           dict(kind='r16res', rclass='R16', xr=['S0:1:ctor', 'C0:2:create', 'R0:2:ctor'], groups=[[4]]),
+           dict(kind='r16arr', rclass='R16', ty='M', fills=[[1.0, 2.0], [5.0, 6.0]]),
+           dict(kind='r16arr', rclass='R16', ty='S', fills=[[1.0, 2.0], [10.0, 20.0], [0.5, 0.25]])]
+    for _ in range(count):
+        out.append(dict(kind='r16res', rclass='R16', xr=gen_xr(rng, rng.randint(1, 5)),
+                        groups=[[rng.randint(-3, 6) for _ in range(rng.randint(1, 4))]],
+                        xtype=rng.choice(['int', 'np.int64', 'np.int16'])))
+    return out
+
+
 def _o_sim(case):
     scratch = tempfile.mkdtemp(prefix='c05_replay_')
     try:
@@ -2251,6 +2961,12 @@ def run_any(case, scratch):
     input the property covers is a failing input, not an infrastructure error."""
     kind = case.get('kind')
     try:
+        if kind == 'r15file':
+            return run_r15file(case, scratch)
+        if kind == 'r16res':
+            return run_r16res(case)
+        if kind == 'r16arr':
+            return run_r16arr(case)
         if kind == 'grid':
             impl, obs = run_grid_impl(case)
             return impl, obs, oracle_grid(case, obs)
@@ -2294,7 +3010,7 @@ ORACLES = {c: _mk(c) for c in ('SimulationRunner.simulate', 'SimulationResults.g
                                'SimulationParameters.get_pack_indexes',
                                'SimulationParameters.get_unpacked_params_list',
                                'SimulationParameters.get_num_unpacked_variations',
-                               'SimulationResults.merge_all_results', 'SimulationParameters.add',
+                               'SimulationResults.merge_all_results', 'SimulationParameters.add', 'Result.update',
                                'SimulationParameters.remove', 'SimulationParameters.set_unpack_parameter')}
 
 
@@ -2527,6 +3243,8 @@ def run_cases(ctx, cases, name='simulate'):
                     ctx.branch('R9:index=' + c['mat']['index'])
             if c['kind'] == 'grid' and obs.get('r13') is not None:
                 ctx.branch('R13:derived-objects-checked')
+            if c.get('rclass') in ('R15', 'R16'):
+                r15_r16_branches(ctx, c, obs)
             seen = set()
             for call, cls, detail in viols:
                 if (call, cls) not in seen:
@@ -2535,6 +3253,114 @@ def run_cases(ctx, cases, name='simulate'):
                     ctx.branch('oracle-fail:%s:%s' % (call, cls))
             if not viols:
                 ctx.branch('oracle-ok')
+
+
+def r15_r16_branches(ctx, c, obs):
+    m = c.get('mat') or {}
+    refused = False
+    if c['kind'] == 'hist':
+        refused = any(ob.get('kind') == 'q' and ob.get('q', {}).get('pack') == ('error', 'ValueError')
+                      for ob in obs['ops'])
+    elif c['kind'] == 'sim':
+        refused = ('error', 'ValueError') in obs['look']
+    elif c['kind'] == 'grid':
+        refused = ('error', 'ValueError') in obs['pack']
+    if c['rclass'] == 'R15':
+        for kd in set(m.get('params', {}).values()):
+            ctx.branch('R15:family=' + kd.split(':')[1])
+        if m.get('outs'):
+            ctx.branch('R15:outs=' + m['outs'].split(':')[0])
+        if c.get('r15setter'):
+            ctx.branch('R15:setter-called-with-a-close-value')
+        if refused:
+            ctx.branch('R15:close-but-absent-value-refused')
+    else:
+        if obs.get('nrefills'):
+            ctx.branch('R16:container-refilled-in-place')
+            if any(len(ob.get('refilled', [])) > 1 for ob in obs['ops']):
+                ctx.branch('R16:same-container-for-two-parameters')
+            ctx.branch('R16:earlier-variations-rechecked')
+        if m.get('share'):
+            ctx.branch('R16:one-object-in-two-roles')
+        nlook = len(c['look']) if c['kind'] != 'hist' else sum(1 for o in c['ops'] if o.startswith(('q:', 'hq:')))
+        if nlook >= 2:
+            ctx.branch('R16:fixed-values-dictionary-reused')
+            if m.get('fixed') == '0d':
+                ctx.branch('R16:fixed-value-buffers-reused')
+        if m.get('index') == '0d' and sum(1 for o in c.get('ops', []) if o.startswith('single')) >= 2:
+            ctx.branch('R16:index-buffer-reused')
+
+
+def run_oracle_only(ctx, cases):
+    """R15 / R16 scenarios that lie outside the model (partial results on disk after a value was replaced by a
+    close one; the results API with one object in two roles; array-valued results): first principles only"""
+    for c in cases:
+        impl, obs, viols = run_any(c, ctx.scratch)
+        ctx.count((c['kind'], c.get('fam'), repr(c.get('change')), c.get('second'), repr(c.get('xr')), impl),
+                  obs is not None and bool(obs.get('checked')))
+        ctx.branch('%s:%s' % (c['rclass'], c['kind']))
+        if c['kind'] == 'r15file' and obs is not None:
+            ctx.branch('R15:family=' + c['fam'])
+            if obs.get('status') == 'ValueError':
+                ctx.branch('R15:partial-results-of-a-close-value-refused')
+            elif obs.get('status') == 'ok' and obs.get('checked'):
+                ctx.branch('R15:unchanged-variation-resumed')
+        seen = set()
+        for call, cls, detail in viols:
+            if (call, cls) not in seen:
+                seen.add((call, cls))
+                ctx.fail(call, cls, c, detail)
+                ctx.branch('oracle-fail:%s:%s' % (call, cls))
+        if not viols:
+            ctx.branch('oracle-ok')
+
+
+def r15_r16_fixed_cases():
+    """seed-independent R15 / R16 scenarios (quick and thorough)"""
+    out = []
+    outs = [1, 2, 's', 3, -1, 0, 4, 2] * 12
+    for k, fam in enumerate(R15_FAMS):
+        ko = R15_OUTS[k % len(R15_OUTS)]
+        kind = 'close:' + fam
+        out.append(dict(kind='grid', rclass='R15', names=['b', 'a'], vals={'a': [3, 4, 5], 'b': [7, 8]},
+                        look=[[('a', 3)], [('a', 4)], [('a', 5)], [('a', 6)], [('a', 2)], [('b', 8), ('a', 4)],
+                              [('b', 9)], [('b', 7)]],
+                        mat={'params': {'a': kind, 'b': kind + ':arr'}, 'fixed': ['pyfloat', 'same', '0d'][k % 3]}))
+        out.append(dict(kind='hist', rclass='R15', names=['a'], vals={'a': [3, 4]}, repmax=2, keep=['always'],
+                        ops=['all', 'q:a:4', 'padd:a:4.5', 'q:a:4', 'q:a:3', 'q:a:5', 'all', 'hq:a:5', 'padd:a:5.6',
+                             'q:a:5', 'q:a:4', 'all', 'q:a:6'],
+                        outs=outs, file=False, look=[], xr=[], r15setter=True,
+                        mat={'params': {'a': kind + (':arr' if k % 2 else '')}, 'new': [kind + (':arr' if k % 2 else '')],
+                             'fixed': ['same', 'np.float64'][k % 2], 'outs': ko}))
+        out.append(dict(kind='sim', rclass='R15', names=['a'], vals={'a': [3, 4, 5]}, repmax=3,
+                        keep=[['always'], ['sumlt:4'], ['replt:2']][k % 3], file=bool(k % 2), ops=['all', 'all'],
+                        outs=outs, look=[[('a', 3)], [('a', 4)], [('a', 5)], [('a', 6)]], xr=[],
+                        mat={'params': {'a': kind}, 'fixed': 'pyfloat', 'outs': R15_OUTS[(k + 3) % len(R15_OUTS)]}))
+    r16 = {'reuse': True, 'fixed': '0d', 'index': '0d'}
+    out.append(dict(kind='hist', rclass='R16', names=['a'], vals={'a': [5, 6, 7]}, repmax=2, keep=['always'],
+                    ops=['q:a:6', 'pfill:a:6.7.5', 'q:a:6', 'all', 'hq:a:6', 'pfill:a:7.5.6', 'q:a:6', 'all', 'q:a:5',
+                         'pfill:a:9.5.6', 'hq:a:9', 'q:a:7'],
+                    outs=outs, file=False, look=[], xr=[], mat=dict(r16, params={'a': 'int64'}, new=['int64'])))
+    out.append(dict(kind='hist', rclass='R16', names=['a', 'b'], vals={'a': [1, 2], 'b': [1, 2]}, repmax=1,
+                    keep=['always'],
+                    ops=['all', 'q:a:1+b:2', 'pfill:a+b:2.3', 'q:a:2+b:3', 'q:a:1', 'all', 'q:a:3', 'pfill:a+b:4.2',
+                         'all', 'hq:b:4'],
+                    outs=outs, file=False, look=[], xr=[],
+                    mat=dict(r16, params={'a': 'float64', 'b': 'float64'}, new=['float64'], share=['a', 'b'],
+                             fixed='pyfloat')))
+    out.append(dict(kind='hist', rclass='R16', names=['a'], vals={'a': [1, 2]}, repmax=2, keep=['sumlt:3'],
+                    ops=['q:a:2', 'pfill:a:4.5.6', 'q:a:5', 'all', 'pfill:a:9', 'all', 'q:a:9', 'pfill:a:', 'q:fx0:7',
+                         'pfill:a:3.1', 'all', 'q:a:1'],
+                    outs=outs, file=False, look=[], xr=['M1:1:ctor'],
+                    mat=dict(r16, params={'a': 'list'}, new=['list'], fixed='same')))
+    out.append(dict(kind='sim', rclass='R16', names=['a'], vals={'a': [1, 2, 3]}, repmax=2, keep=['always'], file=True,
+                    ops=['single:0', 'single:2', 'single:0', 'single:1', 'all'], outs=outs,
+                    look=[[('a', 2)], [('a', 3)], [('a', 1)], [('a', 9)], [('a', 3)]], xr=[],
+                    mat=dict(r16, params={'a': 'strided'})))
+    out.append(dict(kind='grid', rclass='R16', names=['b', 'a'], vals={'a': [1, 2, 3], 'b': [1, 2, 3]},
+                    look=[[('a', 2)], [('a', 3), ('b', 1)], [('b', 2)], [('a', 9)], [('a', 1), ('b', 3)]],
+                    mat=dict(params={'a': 'int64', 'b': 'int64'}, share=['a', 'b'], reuse=True, fixed='0d')))
+    return out
 
 
 def corpus_cases():
@@ -2680,6 +3506,16 @@ def check(ctx):
                              'R10', 'R10:mixed', 'R10:outs', 'R11:non-mutating-calls-checked', 'R12',
                              'R12:insertion-order', 'R13:derived-objects-checked', 'R14', 'R14:sim', 'R14:grid',
                              'R14:mrg',
+                             'R15', 'R15:sim', 'R15:grid', 'R15:hist', 'R15:r15file', 'R15:close', 'R15:outs',
+                             'R15:family=tiny', 'R15:family=rel', 'R15:family=adj', 'R15:family=dec12',
+                             'R15:family=thr', 'R15:outs=aff', 'R15:outs=m', 'R15:setter-called-with-a-close-value',
+                             'R15:close-but-absent-value-refused', 'R15:partial-results-of-a-close-value-refused',
+                             'R15:unchanged-variation-resumed',
+                             'R16', 'R16:sim', 'R16:grid', 'R16:hist', 'R16:r16res', 'R16:r16arr',
+                             'R16:container-refilled-in-place', 'R16:same-container-for-two-parameters',
+                             'R16:one-object-in-two-roles', 'R16:earlier-variations-rechecked',
+                             'R16:fixed-values-dictionary-reused', 'R16:fixed-value-buffers-reused',
+                             'R16:index-buffer-reused', 'hist:pfill',
                              'mrg', 'mrg:start=empty', 'mrg:start=first', 'mrg:start=result', 'mrg:append=all',
                              'mrg:append=result', 'xr:in-sim', 'xr:in-hist', 'xr:S0', 'xr:S1', 'xr:R0', 'xr:R1',
                              'xr:M0', 'xr:M1', 'xr:C0', 'xr:C1', 'xr:form=ctor', 'xr:form=create',
@@ -2698,6 +3534,11 @@ def check(ctx):
         cases += [gen_rcase(rrng, rc) for _ in range(200 if quick else 1400)]
     for rc in ('R8', 'R9', 'R10', 'R12'):
         cases += [gen_rcase(rrng, rc) for _ in range(150 if quick else 900)]
+    r15rng = ctx.rng.fork('R15-R16')
+    cases += r15_r16_fixed_cases()
+    for rc in ('R15', 'R16'):
+        cases += [gen_rcase(r15rng, rc) for _ in range(130 if quick else 1400)]
+    extra = r15file_cases(r15rng, 10 if quick else 400) + r16res_cases(r15rng, 10 if quick else 400)
     cases += big_cases(quick)
     if quick:
         cases += exhaustive_cases(4, (1, 2))
@@ -2707,6 +3548,7 @@ def check(ctx):
             'every outcome mask of length <= 9 x rep_max 1..4 x 3 stop rules x 4 grids; every grid shape with '
             '0-3 parameters of lengths 1-3 x rep_max 1..3 x 2 stop rules x every mask of length <= 5 '
             '(the seeded part of the run is not exhaustive)')
+    run_oracle_only(ctx, extra)
     try:
         run_cases(ctx, cases)
     except core.Infra as e:
@@ -2723,6 +3565,8 @@ def search(ctx):
         + [gen_hist(rng) for _ in range(1000)] + [gen_hist2(rng) for _ in range(1000)] \
         + [gen_rcase(rng, rc) for rc in ('R1', 'R2', 'R5', 'R6') for _ in range(300)] + exhaustive_cases(5, (1, 2))
     cases += [gen_mrg(rng) for _ in range(3000)]
+    cases += r15_r16_fixed_cases() + [gen_rcase(rng, rc) for rc in ('R15', 'R16') for _ in range(400)] \
+        + r15file_cases(rng, 200) + r16res_cases(rng, 100)
     for c in cases:
         viols = run_any(c, ctx.scratch)[2]
         ctx.count(('search', len(ctx.distinct)), False)
